@@ -72,9 +72,12 @@ class SearchSpace:
         self._param_grid: list[NDArray[np.float64]] = []
         self._space_size = 1
         for i in range(self.dims):
+            # the end-point tolerance absorbs rounding errors only: it must stay below one step,
+            # otherwise a very fine grid would continue beyond the upper bound
+            tolerance = min(0.0000001, 0.5 * parameters_precision[i])
             new_col: NDArray[np.float64] = np.arange(
                 parameters_bounds[0][i],
-                parameters_bounds[1][i] + 0.0000001,
+                parameters_bounds[1][i] + tolerance,
                 parameters_precision[i],
                 dtype=np.float64,
             )
